@@ -11,7 +11,7 @@ start date against a window of end dates, 1000 month offsets ...); failures carr
 ['one', ...] case accepted by check()."""
 import datetime
 
-from ..core import Siblings, WholeFloats, Sub, fail, isnum, enc, lit
+from ..core import Siblings, WholeFloats, Sub, fail, isnum, enc, lit, local_timezone, ZONES
 
 D = datetime.date
 DT = datetime.datetime
@@ -351,6 +351,100 @@ class Time(Sub):
 
 
 # --------------------------------------------------------------------------- ISO text
+
+class HostInstants(Sub):
+    name = 'c14.host_instants'
+    rule = ('date-time OBJECTS handed in by the host (variable; through the delivery-channel differential also cell listener and '
+            'function result) for every hour x minute x s in {0,1,30,59} (thorough: every second) of 3 (5) days, plus the same '
+            'instants with 250 ms: YEAR, MONTH, DAY, HOUR, MINUTE, SECOND and WEEKDAY read the components of the instant; '
+            'non-trivial = all')
+    min_cases = 60
+    min_nontrivial = 5000
+    min_classes = 1
+    DAYS = {'quick': ('2000-02-29', '1900-03-01', '2021-06-15'),
+            'thorough': ('2000-02-29', '1900-03-01', '2021-06-15', '2021-12-31', '9999-12-31')}
+
+    def cases(self, tier, unit):
+        for day in self.DAYS[tier]:
+            for h in range(24):
+                yield [tier, day, h]
+
+    def check(self, env, case):
+        tier, day, h = case
+        d = D.fromisoformat(day)
+        secs = QUICK_SECONDS if tier == 'quick' else range(60)
+        out = []
+        for m in range(60):
+            for s in secs:
+                for us in ((0, 250000) if s in (0, 59) else (0,)):
+                    t = DT(d.year, d.month, d.day, h, m, s, us)
+                    env.nt()
+                    env.note('instant')
+                    wants = [('HOUR', h), ('MINUTE', m), ('SECOND', s)]
+                    if s in (0, 59):
+                        wants += [('YEAR', d.year), ('MONTH', d.month), ('DAY', d.day), ('WEEKDAY', d.isoweekday() % 7 + 1)]
+                    for fn, want in wants:
+                        v, b = val(env, fn + '(xt)', {'xt': t})
+                        if not eqnum(v, want):
+                            out.append(fail('%s(xt) with the date-time xt = %s is not %d' % (fn, t.isoformat(), want), want,
+                                            show(v, b)))
+            if len(out) > 20:
+                break
+        return out
+
+
+TZ_DAYS = ['1900-03-01', '1969-12-31', '1970-01-01', '2021-01-15', '2021-03-14', '2021-03-28', '2021-06-15', '2021-10-31',
+           '2021-11-07', '2038-01-19', '9999-11-30']
+
+
+class Timezones(Sub):
+    name = 'c14.timezones'
+    rule = ('6 local time zones of the process (UTC, US Eastern and UK with daylight saving, India +5:30, New Zealand, Hawaii) x '
+            '11 days (winter, summer, clock-change days, epoch / 2038 boundaries): YEAR/MONTH/DAY/WEEKDAY of the whole-day '
+            'serial (int, float, numeric text), of DATE(y,m,d), of ISO text and of a host date-time; HOUR/MINUTE of serial+0.5, of '
+            'TIME and of a host date-time; DAYS, DATEDIF "d" and EDATE across the day: all as in UTC - the zone of the host '
+            'never matters; non-trivial = all')
+    min_cases = 60
+    min_nontrivial = 1000
+    min_classes = 5
+
+    def cases(self, tier, unit):
+        for tz in ZONES:
+            for day in TZ_DAYS:
+                yield [tz, day]
+
+    def check(self, env, case):
+        tz, day = case
+        d = D.fromisoformat(day)
+        k = d.toordinal() - EPOCH_ORD
+        wd = d.isoweekday() % 7 + 1
+        out = []
+        env.note(tz.split(',')[0])
+        probes = []
+        for arg, vars_ in (('xk', {'xk': k}), ('xk', {'xk': float(k)}), ('xk', {'xk': str(k)}), ('xk', {'xk': day}),
+                           ('xk', {'xk': DT(d.year, d.month, d.day)}), ('DATE(%d,%d,%d)' % (d.year, d.month, d.day), {})):
+            for fn, want in (('YEAR', d.year), ('MONTH', d.month), ('DAY', d.day), ('WEEKDAY', wd)):
+                probes.append(('%s(%s)' % (fn, arg), vars_, want))
+            probes.append(('DAY(EDATE(%s,0))' % arg, vars_, d.day))
+            probes.append(('DAYS(%s,%s)' % (arg, arg), vars_, 0))
+        probes += [('HOUR(xk)', {'xk': k + 0.5}, 12), ('MINUTE(xk)', {'xk': k + 0.5}, 0), ('HOUR(TIME(13,14,15))', {}, 13),
+                   ('HOUR(xk)', {'xk': DT(d.year, d.month, d.day, 1, 30)}, 1), ('HOUR(xk)', {'xk': DT(d.year, d.month, d.day, 2, 30)}, 2),
+                   ('HOUR(xk)', {'xk': DT(d.year, d.month, d.day, 23, 59, 59)}, 23),
+                   ('DAY(xk)', {'xk': DT(d.year, d.month, d.day, 23, 59, 59)}, d.day),
+                   ('HOUR(xk)', {'xk': day + 'T02:30:00'}, 2), ('DAY(xk)', {'xk': day + 'T23:30:00'}, d.day),
+                   ('DAYS(xk+1,xk)', {'xk': k}, 1), ('DATEDIF(xk,xk+31,"d")', {'xk': k}, 31), ('DAYS(xb,xa)', {'xa': k, 'xb': k + 2}, 2)]
+        with local_timezone(tz):
+            for f, vars_, want in probes:
+                env.nt()
+                v, b = val(env, f, vars_)
+                if not (isnum(v) and abs(v - want) < 1e-9):
+                    out.append(fail('[process time zone %s] %s%s is %s, expected %d' % (
+                        tz, f, (' with %s' % dict((a, enc(x)) for a, x in vars_.items())) if vars_ else '', show(v, b), want), want,
+                        show(v, b)))
+                    if len(out) > 10:
+                        break
+        return out
+
 
 class IsoText(Sub):
     name = 'c14.iso_text'
@@ -753,4 +847,4 @@ class DateSiblings(Siblings):
     ]
 
 
-SUBS = [Ymd(), Weekday(), Time(), IsoText(), LowYears(), Pairs(), Deltas(), EdateLong(), EdateDays(), DateWholeFloats(), DateSiblings()]
+SUBS = [Ymd(), Weekday(), Time(), HostInstants(), Timezones(), IsoText(), LowYears(), Pairs(), Deltas(), EdateLong(), EdateDays(), DateWholeFloats(), DateSiblings()]
